@@ -132,7 +132,7 @@ func (r *Reader) ParseStreamWithOptions(f io.ReadSeeker, o *Options) (*sbom.Docu
 	}
 
 	doc, err := unserializer.Unserialize(
-		f, o.UnserializeOptions, r.Options.GetFormatOptions(unserializer),
+		f, o.UnserializeOptions, o.GetFormatOptions(unserializer),
 	)
 	if err != nil {
 		return nil, fmt.Errorf("unserializing: %w", err)
